@@ -787,6 +787,7 @@ func c20Crowd(t *testing.T) {
 func TestC20(t *testing.T) {
 	Col.Property = "C20"
 	ReplayRegress(t, "C20")
+	t.Run("services", runC20Svc)
 	t.Run("crowd", c20Crowd)
 	t.Run("batches", func(t *testing.T) {
 		CheckProp(t, "C20", "c20", "batches", func(rt *rapid.T) *CaseC20 {
